@@ -272,7 +272,8 @@ def classification(R, ctx):
         R.check('R07.2', 'compression-chain', not any(p for k_, p in problems.items() if '|' not in k_ and k_ != 'KeepLogFiles') and
                 any(c[1] and c[1].startswith('compress-range') for c in seen_classes),
                 "create -> open -> copy -> finish -> remove, each guarding the next (decided with R07.1's rows)",
-                "see R07.1", where=b.loc())
+                "compression of a rotated file: " + next((p_[0] for k_, p_ in problems.items() if '|' not in k_ and k_ != 'KeepLogFiles' and p_), 'no compress-range rows') +
+                " - a kill (or failure) between the steps can lose the original without a complete .gz", where=b.loc())
 
 
 def T_norm(s):
